@@ -265,3 +265,6 @@ def run(P, R, tier):
         if P.func(k_, required=False) is not None:
             n_opt += _opt.check_function(P, R, k_)
     R.floor("OPT optional-factor selections", n_opt, 6)
+
+
+EXPLANATION += ' Also: (POL.residual-placement / PREC.placement) every factor of the residuals multiplies and the UBM variances divide; (OPT) optional factors are used only where present and an absent factor contributes 0 / None; (IDX.class-select) the per-class selection compares labels with ==; (DTYPE.raw) no float is stored into a buffer with the dtype of user statistics.'
